@@ -543,6 +543,20 @@ pub fn run(fields: &[&str]) -> String {
                 enc::words(&v)
             })
         }
+        // WrapAlgorithm::wrap called directly: usize widths (any number of them), dispatch and
+        // the usize -> f64 conversion.  args: words, widths, algorithm ("ff" | "of:p:p:p:p:p")
+        "walg" => {
+            let ows: Vec<OwnedWord> = dlist(fields[1]).iter().map(|f| dword(f)).collect();
+            let lws: Vec<usize> = dlist(fields[2]).iter().map(|x| x.parse().unwrap()).collect();
+            let alg_s = fields[3].to_string();
+            guarded(|| {
+                let ws: Vec<Word<'_>> = ows.iter().map(borrow_word).collect();
+                let spec = OptSpec::dec(&format!("0;lf;_;_;0;{};a;n", alg_s));
+                let alg = spec.algorithm();
+                let lines = alg.wrap(&ws, &lws);
+                groups_enc(&ws, &lines)
+            })
+        }
         "ff" | "ffx" => {
             let frs = dfrags(fields[1]);
             let lws = dnums(fields[2]);
@@ -979,6 +993,16 @@ fn gen_word(r: &mut Rng) -> String {
     }
 }
 
+/// what follows the margin on a line: usually a word, sometimes content that is not
+/// whitespace but has no display width (escape sequences, zero-width characters, controls)
+fn line_content(r: &mut Rng) -> &'static str {
+    if r.chance(1, 4) {
+        r.ps(&["\x1b[1m", "\x1b[0m", "\u{200b}", "\u{301}", "\u{feff}", "\x1b]8;;\x1b\\", "\x07", "\u{200d}", "\x1b[31m\x1b[0m"])
+    } else {
+        r.ps(gen::VOCAB)
+    }
+}
+
 fn gen_owned_word(r: &mut Rng) -> String {
     let w = gen_word(r);
     let ws = " ".repeat(*r.pick(&[0usize, 1, 1, 1, 2, 3]));
@@ -1188,6 +1212,33 @@ pub fn generate<W: Write>(mode: &str, r: &mut Rng, out: &mut W) {
                 if ws.is_empty() { "~".into() } else { ws.join(",") },
             ]
         }
+        "walg" => {
+            let n = r.below(14);
+            let ws: Vec<String> = (0..n).map(|_| gen_owned_word(r)).collect();
+            let nl = r.range(1, 5);
+            let lws: Vec<String> = (0..nl)
+                .map(|_| match r.below(8) {
+                    0 => 0usize,
+                    1 => r.range(20, 60),
+                    _ => r.range(1, 16),
+                })
+                .map(|x| x.to_string())
+                .collect();
+            // repeated neighbouring widths on purpose
+            let lws: Vec<String> = if r.chance(1, 3) && lws.len() >= 2 {
+                let mut v = lws.clone();
+                v[1] = v[0].clone();
+                v
+            } else {
+                lws
+            };
+            let alg = if cfg!(feature = "full") && r.chance(1, 2) {
+                if r.chance(2, 3) { "of:1000:2500:4:25:25".to_string() } else { format!("of:{}:{}:{}:{}:{}", r.below(2000), r.below(5000), r.below(8), r.below(100), r.below(100)) }
+            } else {
+                "ff".to_string()
+            };
+            vec!["walg".into(), if ws.is_empty() { "~".into() } else { ws.join(",") }, lws.join(","), alg]
+        }
         "ff" => {
             let frac = r.chance(1, 3);
             let neg = r.chance(1, 6);
@@ -1260,7 +1311,7 @@ pub fn generate<W: Write>(mode: &str, r: &mut Rng, out: &mut W) {
         }
         "indent" => {
             let t = match r.below(2) {
-                0 => gen::text_over(r, &["a", " ", "\t", "\n", "\r\n", "\u{a0}", "b", "\n\n"], 10),
+                0 => gen::text_over(r, &["a", " ", "\t", "\n", "\r\n", "\u{a0}", "b", "\n\n", "\x1b[1m", "\u{200b}", "\n\x1b[0m\n", "\u{301}"], 10),
                 _ => {
                     let c = r.chance(1, 3);
                     gen::structured_text(r, 4, 4, 0, c)
@@ -1457,7 +1508,9 @@ pub fn generate<W: Write>(mode: &str, r: &mut Rng, out: &mut W) {
             vec!["wrap13".into(), o.enc(), enc::s(&t)]
         }
         "unfill15" | "refill16" => {
-            let pool = ["a", "be", "foo", "bar", "baz", "text", "wrapping", "hello", "world!", "x1", "naïve", "日本", "e\u{301}", "end.", "(q)", "it's", "Z", "co-op", "a-b-c"];
+            let pool = ["a", "be", "foo", "bar", "baz", "text", "wrapping", "hello", "world!", "x1", "naïve", "日本", "e\u{301}", "end.", "(q)", "it's", "Z", "co-op", "a-b-c",
+                // words ending in a hyphen, double-width words, emoji, zero-width characters inside words
+                "pre-", "3-", "tail-", "안녕하세요", "세계", "Ｈｉ", "😀", "x\u{200b}z", "q\u{ad}r", "ß", "“q”", "1,5", "a—"];
             let n = r.range(1, 12);
             let words: Vec<String> = (0..n).map(|_| r.ps(&pool).to_string()).collect();
             let para = words.join(" ");
@@ -1505,13 +1558,13 @@ pub fn generate<W: Write>(mode: &str, r: &mut Rng, out: &mut W) {
                             if r.chance(1, 3) {
                                 s.push_str(r.ps(&["\u{2002}", "\u{ad}", "\u{85}", "\u{3001}", "\u{a1}"]));
                             }
-                            s.push_str(r.ps(gen::VOCAB));
+                            s.push_str(line_content(r));
                         }
                         2 => s.push_str(&gen::text_over(r, &[" ", "\t", "a", "\r", "b"], 5)),
                         _ => {
                             s.push_str(&margin);
                             s.push_str(&gen::text_over(r, &[" ", "\t"], 2));
-                            s.push_str(r.ps(gen::VOCAB));
+                            s.push_str(line_content(r));
                         }
                     }
                 }
